@@ -20,6 +20,7 @@ func main() {
 	n := fs.Int("n", 10, "number of histories")
 	steps := fs.Int("steps", 150, "operations per history")
 	in := fs.String("in", "", "input file (replay)")
+	gen := fs.Bool("genesis", false, "finish every random history with zero-height preparation, export and re-import")
 	fs.Parse(os.Args[2:])
 
 	switch cmd {
@@ -37,10 +38,20 @@ func main() {
 			c := StartHistory(rec, g.Reset(fmt.Sprintf("random-%d-%d", *seed, i)))
 			for s := 0; s < *steps; s++ {
 				Step(c, rec, g.Next(c.Project()))
+				if s%40 == 39 {
+					Step(c, rec, Ev{Name: "Obs"})
+				}
+			}
+			if *gen {
+				Step(c, rec, Ev{Name: "PrepZeroHeight"})
+				Step(c, rec, Ev{Name: "Genesis"})
 			}
 		}
 		rec.Close()
 		report(rec)
+	case "keys":
+		b, _ := json.Marshal(KeysRun(*out, *seed))
+		fmt.Println(string(b))
 	case "replay":
 		b, err := ioutil.ReadFile(*in)
 		if err != nil {
